@@ -4,7 +4,6 @@
 From V.model Require Import Base RelLex RelLossy.
 From V.proofs Require Import BaseP RelLexP.
 From Coq Require Import ZifyBool.
-Set Default Timeout 60.
 
 (* ================================================================== A. the lexer, fuel-free *)
 Lemma rlex_go_mono f : forall s ts, rlex_go f s = Ok ts -> forall f', f <= f' -> rlex_go f' s = Ok ts.
